@@ -167,6 +167,25 @@ def mask_cases(ctx):
                  P('DaeBrokenRefError'), ['clear'], P('DaeBrokenRefError')]},
     ]
     out = list(fixed)
+    # entries that are not DaeError subclasses: classes above DaeError and tuples of classes (judged by Python's own
+    # isinstance rule in the worker; the Coq mask model has no such entries, so these histories carry no model input)
+    PY = ['Exception', 'BaseException', 'object', 'Tuple:DaeBrokenRefError+DaeMalformedError', 'Tuple:ValueError+DaeError',
+          'Tuple:ValueError+KeyError']
+    for k in range(40 if ctx.quick() else 400):
+        ops = []
+        for _ in range(rng.randint(1, 6)):
+            r = rng.random()
+            if r < 0.15:
+                ops.append(['clear'])
+            elif r < 0.5:
+                ops.append(['add', [rng.choice(PY + MASK_NAMES[:6]) for _ in range(rng.randint(1, 2))]])
+            else:
+                ops.append(P(rng.choice(DAE[:5])))
+        c = {'ops': ops, 'pyentries': True}
+        if ops[0][0] == 'add' and rng.random() < 0.5:
+            c['ctor'] = True
+            c['doc'] = tiny
+        out.append(c)
     for _ in range(n):
         ops = []
         with_doc = rng.random() < 0.5
@@ -260,6 +279,8 @@ def c_doc_case(res, base=None):
 
 
 def c_mask_case(case, res):
+    if case.get('pyentries'):
+        return '(CaseMask [] 0%nat)'
     steps = []
     for st in res['steps']:
         if st[0] == 'clear':
